@@ -1,12 +1,92 @@
 import HcipyVerif.Model.Proto
+import HcipyVerif.Model.Jones
 
-/-! Line-protocol front end of the C08 model (stub: not built yet). -/
+/-!
+Line-protocol front end of the C08 model (`Model/Jones.lean` run at exact rationals).
+
+```
+C08 stokes  [xr,xi,yr,yi,zr,zi,wr,wi] [a,b,c,d]   -> ok [I,Q,U,V]      Stokes(J C(S) Jᴴ)
+C08 mueller [xr,…,wi]                             -> ok [m11,m12,…,m44] Re(U (J⊗J̄) Uᴴ), row-major
+C08 mroute  [xr,…,wi] [a,b,c,d]                   -> ok [I,Q,U,V]      mueller · S
+C08 vstokes [pr,pi,qr,qi]                         -> ok [I,Q,U,V]
+C08 sstokes [er,ei]                               -> ok [I,Q,U,V]
+C08 apply   [J…] [pr,pi,qr,qi]                    -> ok [pr',pi',qr',qi']           J·E
+C08 mul     [J…] [E…]                             -> ok [8 numbers]                 J·E (matrices)
+C08 applyadj [J…] [pr,pi,qr,qi]                   -> ok [4 numbers]                 Jᴴ·E (backward)
+C08 adj     [J…]                                  -> ok [8 numbers]                 Jᴴ
+C08 retarder c s pc ps xc xs                      -> ok [8 numbers]  PhaseRetarder Jones matrix
+C08 polarizer c s                                 -> ok [8 numbers]
+```
+-/
 namespace HcipyVerif.Driver.C08
+open HcipyVerif.Proto HcipyVerif.Jones
 
 structure St where
   dummy : Unit := ()
 
+def j2? : List Rat → Option (J2 Rat)
+  | [a, b, c, d, e, f, g, h] => some ⟨⟨a, b⟩, ⟨c, d⟩, ⟨e, f⟩, ⟨g, h⟩⟩
+  | _ => none
+
+def s4? : List Rat → Option (S4 Rat)
+  | [a, b, c, d] => some ⟨a, b, c, d⟩
+  | _ => none
+
+def v2? : List Rat → Option (V2 Rat)
+  | [a, b, c, d] => some ⟨⟨a, b⟩, ⟨c, d⟩⟩
+  | _ => none
+
+def showS4 (s : S4 Rat) : String := showRatList [s.i, s.q, s.u, s.v]
+def showJ2 (j : J2 Rat) : String :=
+  showRatList [j.a11.re, j.a11.im, j.a12.re, j.a12.im, j.a21.re, j.a21.im, j.a22.re, j.a22.im]
+def showV2 (e : V2 Rat) : String := showRatList [e.x.re, e.x.im, e.y.re, e.y.im]
+
 def step (st : St) : List String → St × String
+  | ["stokes", j, s] =>
+    match (parseRatList? j).bind j2?, (parseRatList? s).bind s4? with
+    | some j, some s => (st, "ok " ++ showS4 (jonesStokes j s))
+    | _, _ => (st, "bad-op")
+  | ["mueller", j] =>
+    match (parseRatList? j).bind j2? with
+    | some j => (st, "ok " ++ showRatList ((List.range 16).map fun n => muellerDef j (n / 4) (n % 4)))
+    | _ => (st, "bad-op")
+  | ["mroute", j, s] =>
+    match (parseRatList? j).bind j2?, (parseRatList? s).bind s4? with
+    | some j, some s => (st, "ok " ++ showS4 (mulVec (muellerDef j) s))
+    | _, _ => (st, "bad-op")
+  | ["vstokes", e] =>
+    match (parseRatList? e).bind v2? with
+    | some e => (st, "ok " ++ showS4 (vecStokes e))
+    | _ => (st, "bad-op")
+  | ["sstokes", e] =>
+    match parseRatList? e with
+    | some [a, b] => (st, "ok " ++ showS4 (scalarStokes ⟨a, b⟩))
+    | _ => (st, "bad-op")
+  | ["apply", j, e] =>
+    match (parseRatList? j).bind j2?, (parseRatList? e).bind v2? with
+    | some j, some e => (st, "ok " ++ showV2 (j.apply e))
+    | _, _ => (st, "bad-op")
+  | ["mul", j, e] =>
+    match (parseRatList? j).bind j2?, (parseRatList? e).bind j2? with
+    | some j, some e => (st, "ok " ++ showJ2 (j * e))
+    | _, _ => (st, "bad-op")
+  | ["applyadj", j, e] =>
+    match (parseRatList? j).bind j2?, (parseRatList? e).bind v2? with
+    | some j, some e => (st, "ok " ++ showV2 (j.adj.apply e))
+    | _, _ => (st, "bad-op")
+  | ["adj", j] =>
+    match (parseRatList? j).bind j2? with
+    | some j => (st, "ok " ++ showJ2 j.adj)
+    | _ => (st, "bad-op")
+  | ["retarder", c, s, pc, ps, xc, xs] =>
+    match parseRat? c, parseRat? s, parseRat? pc, parseRat? ps, parseRat? xc, parseRat? xs with
+    | some c, some s, some pc, some ps, some xc, some xs =>
+      (st, "ok " ++ showJ2 (retarder c s ⟨pc, ps⟩ ⟨xc, xs⟩))
+    | _, _, _, _, _, _ => (st, "bad-op")
+  | ["polarizer", c, s] =>
+    match parseRat? c, parseRat? s with
+    | some c, some s => (st, "ok " ++ showJ2 (polarizer c s))
+    | _, _ => (st, "bad-op")
   | _ => (st, "bad-op")
 
 end HcipyVerif.Driver.C08
